@@ -2756,15 +2756,27 @@ def c16_checks(repo: Repo, tier: str, res: CheckResult, seed: int) -> None:
     for r in recs:
         if r.get("harness_error"):
             raise AnalysisError(f"generics harness failed ({r.get('spec')}, {r.get('query')}): {r['harness_error']}")
-        classes = {c[0]: (c[1], [(b[0], b[1]) for b in c[2]], c[3]) for c in r["classes"]}
+        # a member declared `T = field(init=False, ...)` is output-only: the dumper handles it, the loader does not
+        out_only = {f for c in r["classes"] for f, t in c[3].items() if "init=False" in t}
+        classes = {c[0]: (c[1], [(b[0], b[1]) for b in c[2]], {f: t.split(" = ")[0] for f, t in c[3].items()}) for c in r["classes"]}
         q = r["query"]
         mt = re.fullmatch(r"(\w+)(?:\[(.*)\])?", q)
         cname, args = mt.group(1), _g_split_args(mt.group(2) or "")
-        want_alts = _g_resolve_alts(classes, cname, args)
-        want = {f: alts[0] for f, alts in want_alts.items()}
+        want_alts_all = _g_resolve_alts(classes, cname, args)
         n += 1
         res.evaluated(f"G:generics:{r['spec']}:{q}", True)
+        # one retort, both products, both orders: what a retort can build does not depend on what it built before
+        seq = r.get("sequential") or {}
+        for k, err in sorted(seq.items()):
+            what_ = k.split(":")[1]
+            if err is not None and r[what_]["error"] is None:
+                res.add(Finding("C16", "GENERIC.refused-after-sibling", GR, "GenericResolver", f"{r['spec']}:{q}:{k}",
+                                f"{q} ({r['spec']}): a fresh retort builds the {what_}, the retort that was asked for the other direction "
+                                f"first ({k.split(':')[0]}) answers {err}: the members of a parametrised base resolved for one shape are "
+                                "reused for the other shape (an output-only member is missing / unsubstituted)", 0))
         for what, table, known in (("loader", _G_LOADER, known_l), ("dumper", _G_DUMPER, known_d)):
+            want_alts = {f: a for f, a in want_alts_all.items() if not (what == "loader" and f in out_only)}
+            want = {f: alts[0] for f, alts in want_alts.items()}
             got = r[what]
             # (the documented error for non-parametrised generics concerns dump(obj) without a type; get_dumper(A) uses the
             # implicit parameters like the loader does)
